@@ -39,6 +39,14 @@ pub mod value_encoding {
             ensures r matches Ok(h) ==> h@ == Self::enc(value@), r is Ok <==> legal_value(Self::enc(value@));
         fn decode(value: &[u8]) -> (r: Result<Bytes, InvalidMetadataValueBytes>)
             ensures r matches Ok(b) ==> Self::dec(value@) == Some(b@), r is Err <==> Self::dec(value@) is None;
+        // an owned buffer is coded like a borrowed one
+        fn from_shared(value: Bytes) -> (r: Result<HeaderValue, InvalidMetadataValueBytes>)
+            ensures r matches Ok(h) ==> h@ == Self::enc(value@), r is Ok <==> legal_value(Self::enc(value@));
+        fn is_empty(value: &[u8]) -> (r: bool);
+        fn equals(a: &HeaderValue, b: &[u8]) -> (r: bool);
+        // two wire values are the same metadata value exactly when they denote the same bytes (or both denote none)
+        fn values_equal(a: &HeaderValue, b: &HeaderValue) -> (r: bool)
+            ensures r == (Self::dec(a@) == Self::dec(b@));
     }
 }
 pub trait ValueEncoding: value_encoding::Sealed {
@@ -71,6 +79,21 @@ impl Bytes {
     pub fn as_ref(&self) -> (r: &[u8]) ensures r@ == self@ { unimplemented!() }
 }
 pub use core::marker::PhantomData;
+// A-core-42: slice equality is equality of the contents (R17: `a == b` on byte slices / vectors goes through these)
+#[verifier::external_body]
+pub fn verif_slice_eq(a: &[u8], b: &[u8]) -> (r: bool) ensures r == (a@ == b@) { a == b }
+// A-http-19 / A-bytes-25: `==` on HeaderValue / Bytes compares the bytes
+impl vstd::std_specs::cmp::PartialEqSpecImpl for HeaderValue { open spec fn obeys_eq_spec() -> bool { true } open spec fn eq_spec(&self, other: &HeaderValue) -> bool { self@ == other@ } }
+impl PartialEq for HeaderValue { #[verifier::external_body] fn eq(&self, other: &HeaderValue) -> (r: bool) { unimplemented!() } }
+impl vstd::std_specs::cmp::PartialEqSpecImpl for Bytes { open spec fn obeys_eq_spec() -> bool { true } open spec fn eq_spec(&self, other: &Bytes) -> bool { self@ == other@ } }
+impl PartialEq for Bytes { #[verifier::external_body] fn eq(&self, other: &Bytes) -> (r: bool) { unimplemented!() } }
+impl HeaderValue {
+    // A-http-18: HeaderValue::from_str accepts exactly the texts whose UTF-8 bytes are visible ASCII / tab / obs-text
+    #[verifier::external_body]
+    pub fn from_str(s: &str) -> (r: Result<HeaderValue, InvalidHeaderValue>)
+        ensures r is Ok <==> legal_value(vstd::utf8::encode_utf8(s@)), r matches Ok(v) ==> v@ == vstd::utf8::encode_utf8(s@)
+    { unimplemented!() }
+}
 // the byte-level suffix test of Binary::is_valid_key
 pub open spec fn lower_byte(b: u8) -> u8 { if 65 <= b && b <= 90 { (b + 32) as u8 } else { b } }
 pub open spec fn lower_bytes(s: Seq<u8>) -> Seq<u8> { s.map_values(|b: u8| lower_byte(b)) }
@@ -246,6 +269,12 @@ def build():
     u._open_header = 'impl value_encoding::Sealed for Ascii {'
     u.fn(EN, 'from_bytes', within='impl self::value_encoding::Sealed for Ascii')
     u.fn(EN, 'decode', within='impl self::value_encoding::Sealed for Ascii')
+    sl = [lambda t: t.sub_code('R17', r'a\.as_bytes\(\) == b', 'verif_slice_eq(a.as_bytes(), b)'), lambda t: t.sub_code('R17', r'decoded == b', 'verif_slice_eq(decoded.as_slice(), b)')]
+    WA = 'impl self::value_encoding::Sealed for Ascii'
+    u.fn(EN, 'from_shared', within=WA, display='Ascii::from_shared')
+    u.fn(EN, 'is_empty', within=WA, display='Ascii::is_empty', ensures=[Clause('E2_empty_means_no_bytes', 'r == (value@.len() == 0)')])
+    u.fn(EN, 'equals', within=WA, body_edits=sl, display='Ascii::equals', ensures=[Clause('E3_the_same_bytes', 'r == (a@ == b@)')])
+    u.fn(EN, 'values_equal', within=WA, display='Ascii::values_equal')
     u.close('}')
     u._emit('impl value_encoding::Sealed for Binary {\n    open spec fn enc(v: Seq<u8>) -> Seq<u8> { b64_enc(false, v) }\n    open spec fn dec(h: Seq<u8>) -> Option<Seq<u8>> { b64_dec(h) }')
     u._open_header = 'impl value_encoding::Sealed for Binary {'
@@ -253,6 +282,14 @@ def build():
          body_start='        broadcast use axiom_b64_legal, axiom_bytes_of_string;')
     u.fn(EN, 'decode', within='impl self::value_encoding::Sealed for Binary',
          closures={0: dict(params='bytes_vec: Vec<u8>', ret='(x: Bytes)', ensures=['x@ == bytes_vec@'])})
+    WB = 'impl self::value_encoding::Sealed for Binary'
+    u.fn(EN, 'from_shared', within=WB, display='Binary::from_shared')
+    u.fn(EN, 'is_empty', within=WB, display='Binary::is_empty',
+         loops={0: dict(iter='it', invariant=['it.seq().len() == value@.len()', 'forall|i: int| 0 <= i < it.seq().len() ==> *(#[trigger] it.seq()[i]) == value@[i]', 'forall|i: int| 0 <= i < it.index@ ==> value@[i] == 61u8'])},
+         ensures=[Clause('E4_empty_means_nothing_but_padding', 'r == (forall|i: int| 0 <= i < value@.len() ==> value@[i] == 61u8)')])
+    u.fn(EN, 'equals', within=WB, body_edits=sl, display='Binary::equals',
+         ensures=[Clause('E5_the_bytes_it_denotes_else_the_raw_text', 'r == (match b64_dec(a@) { Some(d) => d == b@, None => a@ == b@ })')])
+    u.fn(EN, 'values_equal', within=WB, display='Binary::values_equal')
     u.close('}')
     u._emit('impl ValueEncoding for Ascii {\n    open spec fn valid_key(key: Seq<char>) -> bool { !is_bin_key(lower(key)) }\n    proof fn law_case(key: Seq<char>) { broadcast use case_facts::lemma_lower_idem; }')
     u._open_header = 'impl ValueEncoding for Ascii {'
@@ -284,6 +321,32 @@ def build():
          ensures=[Clause('V1_decodes_the_wire_form', 'r matches Ok(b) ==> VE::dec(self.inner@) == Some(b@)'), Clause('V2_err_iff_undecodable', 'r is Err <==> VE::dec(self.inner@) is None')])
     u.fn(VL, 'as_encoded_bytes', within='impl<VE: ValueEncoding> MetadataValue<VE>', ensures=[Clause('wire', 'r@ == self.inner@')])
     u.fn(VL, 'unchecked_from_header_value', within='impl<VE: ValueEncoding> MetadataValue<VE>', ensures=[Clause('wire', 'r.inner@ == value@')])
+    u.fn(VL, 'is_empty', within='impl<VE: ValueEncoding> MetadataValue<VE>', display='MetadataValue::is_empty')
+    u.close('}')
+    cl_mv = {0: dict(params='value: HeaderValue', ret='(x: MetadataValue<VE>)', ensures=['x.inner@ == value@'])}
+    u.fn(VL, 'try_from', within='impl<VE: ValueEncoding> TryFrom<Bytes> for MetadataValue<VE>',
+         header='impl<VE: ValueEncoding> MetadataValue<VE> {', close=True, display='MetadataValue::try_from(Bytes)',
+         sig_edits=[lambda t: t.sub_code('R9', r'Self::Error', 'InvalidMetadataValueBytes'), lambda t: t.sub_code('R9', r'fn try_from\(', 'fn try_from_shared(')], closures=cl_mv,
+         ensures=[Clause('V5_wire_form_is_the_encoding', 'r matches Ok(v) ==> v.inner@ == VE::enc(src@)'), Clause('V6_ok_iff_legal', 'r is Ok <==> legal_value(VE::enc(src@))')])
+    u.fn(VL, 'eq', within='impl<VE: ValueEncoding> PartialEq for MetadataValue<VE>', header='impl<VE: ValueEncoding> MetadataValue<VE> {', close=True, display='MetadataValue::eq',
+         ensures=[Clause('V7_equal_exactly_when_they_denote_the_same_bytes', 'r == (VE::dec(self.inner@) == VE::dec(other.inner@))')])
+    # tonic's own ToStrError (the prelude already has http's under that name): R12 renames it here
+    mdt = [lambda t: t.sub_code('R12', r'\bToStrError\b', 'MdToStrError')]
+    u.item(VL, 'struct', 'ToStrError', edits=mdt)
+    u.fn(VL, 'new', within='impl ToStrError', header='impl MdToStrError {', close=True, display='ToStrError::new', vacuity=False, body_edits=mdt)
+    u._emit('impl MetadataValue<Ascii> {'); u._open_header = 'impl MetadataValue<Ascii> {'
+    u.fn(VL, 'len', within='impl MetadataValue<Ascii>', display='MetadataValue<Ascii>::len', ensures=[Clause('V8_length_of_the_wire_form', 'r == self.inner@.len()')])
+    u.fn(VL, 'to_str', within='impl MetadataValue<Ascii>', display='MetadataValue<Ascii>::to_str', sig_edits=mdt, body_edits=mdt,
+         ensures=[Clause('V9_the_text_of_a_visible_ascii_value', 'r is Ok <==> visible_ascii(self.inner@)'), Clause('V9b_spells_the_same_bytes', 'r matches Ok(t) ==> ascii_bytes(t@) == self.inner@')])
+    u.fn(VL, 'as_bytes', within='impl MetadataValue<Ascii>', display='MetadataValue<Ascii>::as_bytes', ensures=[Clause('V10_the_wire_form', 'r@ == self.inner@')])
+    u.fn(VL, 'from_str', within='impl FromStr for MetadataValue<Ascii>', display='MetadataValue<Ascii>::from_str', sig_edits=[lambda t: t.sub_code('R9', r'Self::Err', 'InvalidMetadataValue')],
+         closures={0: dict(params='value: HeaderValue', ret='(x: MetadataValue<Ascii>)', ensures=['x.inner@ == value@'])},
+         ensures=[Clause('V11_the_bytes_of_the_text_if_they_are_legal', '(r is Ok <==> legal_value(vstd::utf8::encode_utf8(s@))) && (r matches Ok(v) ==> v.inner@ == vstd::utf8::encode_utf8(s@))')])
+    u.close('}')
+    u._emit('impl MetadataValue<Binary> {'); u._open_header = 'impl MetadataValue<Binary> {'
+    u.fn(VL, 'from_bytes', within='impl MetadataValue<Binary>', display='MetadataValue<Binary>::from_bytes',
+         body_start='        broadcast use axiom_b64_legal;',
+         ensures=[Clause('V12_any_bytes_make_a_binary_value_whose_wire_form_is_their_unpadded_base64', 'r.inner@ == b64_enc(false, src@)')])
     u.close('}')
     u.fn(VL, 'try_from', within='impl<VE: ValueEncoding> TryFrom<&[u8]> for MetadataValue<VE>',
          header='impl<VE: ValueEncoding> MetadataValue<VE> {', close=True, display='MetadataValue::try_from(&[u8])',
